@@ -376,6 +376,10 @@ func c03Ladders(d int) []string {
 		"<%= " + rep("f(", d) + "a" + rep(")[0].b", d) + " %>",
 		"<%= " + rep("[", d) + "a" + rep("][0].b", d) + " %>",
 		"<%= a" + rep("()[0].b", d) + " %>",
+		// a loop head whose iterable is a chain of calls
+		"<%= for (x) in a" + rep(".f()", d) + " { %>x<% } %>",
+		"<%= for (x) in a" + rep(".f()[0]", d) + " { %>x<% } %>",
+		"<%= for (x) in " + rep("f(", d) + "a" + rep(")", d) + " { %>x<% } %>",
 	}
 	return out
 }
@@ -467,7 +471,7 @@ func init() {
 		ID:    "C03",
 		Level: "exploration",
 		Rule: "inputs = (1) every sequence of 0..k lexemes (k=3 quick, 4 thorough) over a " + fmt.Sprint(len(c03Vocab)) +
-			"-lexeme vocabulary in 8 tag framings, enumerated exhaustively; (2) random token soup of 1..60 lexemes; (3) every truncation plus random byte mutations of all template literals found in /repo/**/*_test.go; (4) nesting ladders of 47 shapes to depth 256 (2048 thorough); (5) 16 such shapes 1.5 million deep, parsed and, when a template comes back, executed (the worker stack limit is 256 MB, so unbounded recursion kills the worker and is reported as a process-level finding). " +
+			"-lexeme vocabulary in 8 tag framings, enumerated exhaustively; (2) random token soup of 1..60 lexemes; (3) every truncation plus random byte mutations of all template literals found in /repo/**/*_test.go; (4) nesting ladders of 50 shapes to depth 256 (2048 thorough); (5) 16 such shapes 1.5 million deep, parsed and, when a template comes back, executed (the worker stack limit is 256 MB, so unbounded recursion kills the worker and is reported as a process-level finding). " +
 			"Each input is given to parser.Parse (and plush.NewTemplate for 2-4) under recover with the H1 lexer-step budget. Every input reaches the parser, so non-trivial = distinct input string (enumerated inputs are distinct by construction, random ones are counted by hash).",
 		Assume:     []string{"H1 budget 64*len+4096 lexer steps is far above what a terminating parse needs (max observed ratio on the repo's templates: 1.6)"},
 		Batches:    batchesQT(32, 128),
